@@ -85,9 +85,21 @@ def raw_cases(rng, n):
     import sqlprog as sp
     import gen
     out, refused = [], 0
-    for _ in range(n):
+    a, b, c = K(1), K(2), K(3)
+    l1 = ("leaf", 1, ("sql", 0), [a, b], [{a: 1, b: 10}, {a: 2, b: 20}, {a: 3, b: 30}], (0, None))
+    l2 = ("leaf", 2, ("sql", 0), [c], [{c: 7}, {c: 8}], (0, None))
+    srt = ("un", ("sort", [(("ref", a), True), (("ref", b), True)]), mp.DEFAULT, l1)
+    fixed = [("join", None, True, False, ("un", ("slice", x, y), mp.DEFAULT, base), l2)
+             for x, y in ((0, 0), (1, 1), (0, 1), (1, None), (0, 2)) for base in (l1, srt)
+             if base is srt or x == y]        # a non-empty window of an unsorted table is not determined
+    fixed += [("chain", ("un", ("slice", x, y), mp.DEFAULT, srt), l1) for x, y in ((0, 0), (0, 1), (2, None))]
+    for k in range(n):
         p, cols, ordered = sp.gen_sqlprog(rng, rng.choice([1, 2, 3, 4, 5]))
-        if rng.random() < 0.15:
+        if k < len(fixed):
+            p, cols, ordered = fixed[k], [], False
+        if k < len(fixed):
+            pass
+        elif rng.random() < 0.15:
             p, ordered = sp.dedup_then_project(rng), False
         elif rng.random() < 0.4:
             # windows the generator reaches rarely, below a binary operation: empty [0:0] / [k:k], one row, offset only
